@@ -88,15 +88,17 @@ func (c *hbConn) recvLoop() {
 			continue
 		}
 
-		if err != nil {
-			c.Close()
-			return
-		}
-
+		// Forward a stream error through the queue, together with any bytes
+		// that came with it, so that Read reports it only after the data
+		// received before it.
 		timer := time.NewTimer(c.timeout)
 		select {
 		case c.recvCh <- errBytes{buffer[:n], err}:
 			timer.Stop()
+			if err != nil {
+				c.Close()
+				return
+			}
 			continue
 		case <-timer.C:
 			c.Close()
@@ -116,22 +118,25 @@ func (c *hbConn) Write(b []byte) (n int, err error) {
 }
 
 func (c *hbConn) Read(b []byte) (int, error) {
+	var readBytes errBytes
 	select {
 	case <-c.closed:
-		return 0, net.ErrClosed
-	case readBytes := <-c.recvCh:
-		if readBytes.err != nil {
-			return 0, readBytes.err
+		// Deliver what was queued before the connection closed.
+		select {
+		case readBytes = <-c.recvCh:
+		default:
+			return 0, net.ErrClosed
 		}
-
-		if len(b) < len(readBytes.b) {
-			return 0, ErrInsufficientBuffer
-		}
-
-		n := copy(b, readBytes.b)
-
-		return n, nil
+	case readBytes = <-c.recvCh:
 	}
+
+	if len(b) < len(readBytes.b) {
+		return 0, ErrInsufficientBuffer
+	}
+
+	n := copy(b, readBytes.b)
+
+	return n, readBytes.err
 }
 
 func (c *hbConn) BufferedAmount() uint64 {
